@@ -5,6 +5,7 @@ import (
 	"context"
 	"encoding/json"
 	"fmt"
+	"math"
 	"net/http"
 	"net/http/httptest"
 	"time"
@@ -176,6 +177,7 @@ func C01(r *h.Run) {
 		SendCompression                 bool
 		MinBytes                        int
 		Via                             e2eTransport
+		HugeLimit                       bool `json:",omitempty"` // WithReadMaxBytes(math.MaxInt) on both sides
 	}
 	runCfg := func(c e2eCfg, reqMsgs, resMsgs [][]byte, fam string) {
 		var copts []connect.ClientOption
@@ -196,6 +198,11 @@ func C01(r *h.Run) {
 		}
 		copts = append(copts, connect.WithCompressMinBytes(c.MinBytes))
 		hopts = append(hopts, connect.WithCompressMinBytes(c.MinBytes))
+		if c.HugeLimit {
+			// "as large as it goes" is a read limit too
+			copts = append(copts, connect.WithReadMaxBytes(math.MaxInt))
+			hopts = append(hopts, connect.WithReadMaxBytes(math.MaxInt))
+		}
 		var res e2eResult
 		switch c.Codec {
 		case "toy":
@@ -253,7 +260,7 @@ func C01(r *h.Run) {
 						resMsgs = [][]byte{{9, 9}, {}, {1}, {}}
 					}
 					c := e2eCfg{Proto: proto, Codec: codec, Compression: comp, Kind: kind, SendCompression: i%3 != 0,
-						MinBytes: []int{0, 1, 2, 512, 513, 1 << 20}[rng.Intn(6)], Via: viaLocal}
+						MinBytes: []int{0, 1, 2, 512, 513, 1 << 20}[rng.Intn(6)], Via: viaLocal, HugeLimit: rng.Intn(4) == 0}
 					runCfg(c, reqMsgs, resMsgs, "e2e_local")
 				}
 			}
